@@ -19,7 +19,16 @@ print("# Seeded changes x checks (quick tier, VERIF_SEED=1)\n")
 print("`V` = VIOLATION with a concrete replay of that property; `nf` = VIOLATION ... no-failing-input-found (a proof obligation or")
 print("the model-code correspondence of that property's containers broke, its own monitor found no failing input); `.` = check passes.")
 print("Open known findings (F7) are printed as KNOWN-FINDING lines by C02/C18 in every run and are not shown.\n")
-print("| seed | " + " | ".join(p[1:] for p in props) + " |")
-print("|---|" + "|".join("---" for _ in props) + "|")
+br = {}
+bf = os.path.join(d, "bridge.log")
+if os.path.exists(bf):
+    for l in open(bf):
+        m = re.match(r"seed=(\S+)(.*)$", l.strip())
+        if m:
+            br[m.group(1)] = ",".join(w.split("=")[0] for w in m.group(2).split() if w.endswith("=BROKEN")) or "-"
+print("Last column `g`: the source-translation bridges (tie g) the change breaks (`-` = none: the change does not touch a translated")
+print("member function or constructor, e.g. it only moves a lock_guard).\n")
+print("| seed | " + " | ".join(p[1:] for p in props) + " | g |")
+print("|---|" + "|".join("---" for _ in props) + "|---|")
 for s in sorted(rows):
-    print("| %s | " % s + " | ".join(rows[s].get(p, "?") for p in props) + " |")
+    print("| %s | " % s + " | ".join(rows[s].get(p, "?") for p in props) + " | %s |" % br.get(s, "?"))
